@@ -127,6 +127,53 @@ claim("C15",
       "Trusted: Leibniz laws of the term algebra; C06 for the primitives; sympy expand/simplify on polynomials in alpha, beta.",
       "DESIGN.md 2.5, 3 (C15)")
 
+_KERNEL_NOTE = ("Trusted: the Obara-Saika/HGP recurrences as written in DESIGN.md 2.2 (target-relative form in gbsa/stencil_spec.py); numpy "
+                "indexing/broadcasting semantics as modelled by the label-carrying evaluator gbsa/stencil.py; sympy simplify; assembly is C09's.")
+
+claim("C01",
+      "recurrence (stencil) extraction + coefficient-wise conformance by computer algebra; axis-provenance typing of the kernel; closed-form check of the norms",
+      "A label-carrying symbolic evaluator runs Overlap.construct_array_contraction through its private call chain on symbolic shells (never "
+      "executing it): each store into the recursion table becomes a stencil (offsets of the table references from the target index, "
+      "coefficients as sympy expressions in the centres/exponents, np.arange factors resolved to the target index, the loop index kept "
+      "symbolic) and is compared term by term with the Obara-Saika start value and steps Sa/Sb - so the claim covers every angular "
+      "momentum; each table axis is driven by one centre and is later selected with that shell's component list; primitives are "
+      "contracted once with their own shell's coefficients and primitive norms; the kernel's axes are (M_1, L_1, M_2, L_2). A "
+      "stability lint rejects start values/coefficients that cancel squares of absolute positions. norm_prim_cart equals "
+      "(int g^2)^(-1/2) by computer algebra; the contraction norm is the -1/2 power of the 'ijij' diagonal of the shell's own overlap "
+      "block; OverlapAsymmetric reuses the same kernel object. The 1e-8 accuracy claim itself is numerical and not decided.",
+      _KERNEL_NOTE, "DESIGN.md 2.1, 2.2, 2.4, 3 (C01)")
+
+claim("C02",
+      "recurrence (stencil) extraction + conformance; padding/validity inequality; must-pass-through rule",
+      "Same engine on the kinetic-energy chain: the five stores of the derivative table conform to D[k] = 2 alpha_a D[k-1,i+1] - i "
+      "D[k-1,i-1] with the exponent of the FIRST shell; order 0 is the overlap table of (A, alpha) vs (B, beta) padded by the maximum "
+      "order, and the returned cut satisfies size >= cut + max order symbolically (every entry read is still valid after that many "
+      "steps); the returned expression is -1/2 times the sum over exactly {2e_x, 2e_y, 2e_z} of x/y/z products selected with the "
+      "shells' own components, contracted once per shell, axes (M_1, L_1, M_2, L_2); every return of the kernel and of the private "
+      "functions under it is derived from the recursion (no data-dependent early return). Accuracy is not decided.",
+      _KERNEL_NOTE, "DESIGN.md 2.2, 3 (C02)")
+
+claim("C07",
+      "recurrence (stencil) extraction + conformance; axis-provenance typing; gather rule",
+      "Same engine on the moment chain with a symbolic origin and order table: the eight stores that raise the moment order conform to the "
+      "Obara-Saika moment recurrence (origin = the given moment centre; coupling to both angular indices and to the order); the x/y/z "
+      "factors are selected with (requested order component, shell two's components, shell one's components, component) on the axes "
+      "whose recursion used those centres; the order triples end up as the last axis in the given order; the table is sized by the "
+      "largest requested order; arguments are validated before use. Order (0,0,0) = overlap and the binomial origin shift follow from "
+      "the recurrence. Accuracy is not decided.",
+      _KERNEL_NOTE, "DESIGN.md 2.2, 3 (C07)")
+
+claim("C08",
+      "adjoint classification (phase analysis of return expressions + conjugation flags from the abstract assembly run) + stencil/typing of the kernels",
+      "Both kernels' return expressions are classified (imaginary unit) x (real) with constant prefactor exactly -i; the abstract "
+      "assembly runs show every mirrored block of the symmetric two-index fill carrying a conjugation and no un-mirrored block carrying "
+      "one (adjoint fill, not in place). The momentum kernel is the first-derivative table (recurrence D, overlap start, padding) "
+      "selected with rows e_x, e_y, e_z in this order as the last axis; the three stacked components of the angular-momentum kernel are, "
+      "as formal products of 1-D integrals, S_k (M1_{k+1} D1_{k+2} - M1_{k+2} D1_{k+1}) with first moments about the literal coordinate "
+      "origin and every factor selected with its own direction's component columns; contraction once per shell; contract K. Exactness as "
+      "numbers is not decided.",
+      _KERNEL_NOTE + " Hermiticity of -i grad and -i r x grad in exact arithmetic.", "DESIGN.md 2.2, 2.8, 3 (C08)")
+
 na("C10", "quantifies over the numerical values of the transformation matrices (harmonicity, orthonormality, phases for every l<=10); "
           "no clause is visible in the shape of the code - deciding it means computing the matrices, which is not static analysis")
 na("C17", "positive semi-definiteness and Schwarz inequalities are numerical consequences of exact integrals; no structural clause exists")
